@@ -1149,6 +1149,393 @@ theorem shuffleWith_surjective {α : Type} (l p : List α) (h : p.Perm l) : ∃ 
 /-- ... and whatever the draws, the shuffle is a permutation. -/
 theorem shuffleWith_is_perm {α : Type} (ks : List Nat) (l : List α) : (shuffleWith ks l).Perm l := shuffleWith_perm ks l
 
+/-! ### the order classes in model-independent terms: replicas by the placement rule of C04, liveness, location -/
+
+/-- The replicas of a token under a strategy **by the placement rule of the C04 property statement**
+(`C04.specSimple` / `C04.specNtsDc`: first RF distinct nodes clockwise; per datacenter the rack rule). -/
+def specReplicas (r : Ring Node) (s : Strategy) (tok : Int) : List Node :=
+  match s with
+  | .simple rf => C04.specSimple r rf tok
+  | .nts repf => repf.flatMap (fun e => C04.specNtsDc r tok e.1 e.2)
+  | _ => C04.specSimple r 1 tok
+
+/-- `n` is a live replica of the request's token: the request is token-aware routable (token, known keyspace, token-aware
+policy), `n` has a usable connection and `n` is a replica by the placement rule. -/
+def LiveReplica (cl : Cluster) (cfg : Config) (rq : Request) (n : Node) : Prop :=
+  ∃ ts, tokenWithStrategy cl cfg rq = some ts ∧ cl.alive n = true ∧ n ∈ specReplicas cl.loc.ring ts.1 ts.2
+
+/-- The datacenter rule: no datacenter preferred, or failover permitted, or the node is in the preferred datacenter. -/
+def Permitted (cfg : Config) (rq : Request) (n : Node) : Prop :=
+  (preference cfg rq).datacenter = none ∨ cfg.failover = true ∨ n.dc = (preference cfg rq).datacenter
+
+/-- The node is in the preferred datacenter. -/
+def LocalDc (cfg : Config) (rq : Request) (n : Node) : Prop :=
+  ∃ d, (preference cfg rq).datacenter = some d ∧ n.dc = some d
+
+/-- The node is in the preferred rack of the preferred datacenter. -/
+def LocalRack (cfg : Config) (rq : Request) (n : Node) : Prop :=
+  ∃ d r, preference cfg rq = .dcRack d r ∧ n.dc = some d ∧ n.rack = some r
+
+/-- The unrestricted replica set the locator answers is the placement rule's (C04: `simple_eq_spec`,
+`nts_unrestricted_eq_spec`, precomputed = on the fly). -/
+theorem replicas_eq_spec {cl : Cluster} (hwf : WF cl) {cfg : Config} {rq : Request} {ts : Strategy × Int}
+    (hts : tokenWithStrategy cl cfg rq = some ts) (n : Node) :
+    n ∈ (replicasForToken cl.loc ts.2 ts.1 none).iter cl.loc ↔ n ∈ specReplicas cl.loc.ring ts.1 ts.2 := by
+  obtain ⟨r, S, hs, hloc⟩ := hwf.locator
+  have hk : ∀ repf, ts.1 = .nts repf → (repf.map (·.1)).Nodup :=
+    fun repf h => hwf.ntsKeys repf (h ▸ ts_mem_keyspaces hts)
+  rw [hloc]
+  have hsimple : ∀ rf, n ∈ (replicasForToken (C04.locOf r S) ts.2 (.simple rf) none).iter (C04.locOf r S) ↔
+      n ∈ C04.specSimple r rf ts.2 := by
+    intro rf
+    simp only [replicasForToken, ReplicaSet.iter, getSimple_precompute hs, C04.simple_eq_spec hs]
+  cases hst : ts.1 with
+  | simple rf => simpa [specReplicas] using hsimple rf
+  | localStrategy =>
+    rw [(C04.fallback_eq_simple1 _ ts.2 none).1]; simpa [specReplicas] using hsimple 1
+  | other =>
+    rw [(C04.fallback_eq_simple1 _ ts.2 none).2.1]; simpa [specReplicas] using hsimple 1
+  | nts repf =>
+    rw [C04.nts_unrestricted_eq_spec hs S ts.2 repf (hk repf hst) n]
+    simp only [specReplicas, List.mem_flatMap]
+
+/-- Members of the (possibly datacenter-restricted, possibly ring-ordered) filtered replica list, in terms of the
+placement rule. -/
+private theorem mem_filteredReplicas_iff {cl : Cluster} (hwf : WF cl) {cfg : Config} {rq : Request} {ts : Strategy × Int}
+    (hts : tokenWithStrategy cl cfg rq = some ts) (crit : Pref) (det : Bool) (n : Node) :
+    n ∈ filteredReplicas cl ts crit det ↔
+      (n ∈ specReplicas cl.loc.ring ts.1 ts.2 ∧ (∀ d, crit.datacenter = some d → n.dc = some d) ∧
+        cl.alive n = true ∧ rackOk crit n = true) := by
+  have hv := views hwf hts crit
+  have hview : n ∈ (if det then (replicaSet cl ts crit).ordered cl.loc else (replicaSet cl ts crit).iter cl.loc) ↔
+      n ∈ (replicaSet cl ts crit).iter cl.loc := by
+    cases det
+    · simp
+    · simpa using hv.2.2.1.mem_iff
+  have hiter : n ∈ (replicaSet cl ts crit).iter cl.loc ↔
+      (n ∈ specReplicas cl.loc.ring ts.1 ts.2 ∧ (∀ d, crit.datacenter = some d → n.dc = some d)) := by
+    unfold replicaSet
+    cases hd : crit.datacenter with
+    | none => rw [replicas_eq_spec hwf hts]; simp
+    | some d =>
+      have hfil : (replicasForToken cl.loc ts.2 ts.1 (some d)).iter cl.loc =
+          ((replicasForToken cl.loc ts.2 ts.1 none).iter cl.loc).filter (fun n => decide (n.dc = some d)) := by
+        obtain ⟨r, S, hs, hloc⟩ := hwf.locator
+        cases hst : ts.1 with
+        | nts repf => rw [hloc]; exact C04.dc_restrict_eq_filter_nts hs S ts.2 repf d
+        | simple rf => exact C04.dc_restrict_eq_filter_simple _ _ _ _ (by intro repf h; cases h)
+        | localStrategy => exact C04.dc_restrict_eq_filter_simple _ _ _ _ (by intro repf h; cases h)
+        | other => exact C04.dc_restrict_eq_filter_simple _ _ _ _ (by intro repf h; cases h)
+      rw [hfil, List.mem_filter, replicas_eq_spec hwf hts]
+      simp
+  unfold filteredReplicas
+  rw [List.mem_filter, hview, hiter]
+  simp only [Bool.and_eq_true, and_assoc]
+
+private theorem classIdx8_facts (b1 b2 b3 b4 b5 b6 b7 b8 : Bool) (p1 p2 p3 p4 p5 p6 p7 p8 : Node → Bool) (n : Node) :
+    let c := classIdx [(b1, p1), (b2, p2), (b3, p3), (b4, p4), (b5, p5), (b6, p6), (b7, p7), (b8, p8)] n
+    (c = 0 ↔ p1 n = true) ∧ (c ≤ 1 ↔ (p1 n = true ∨ p2 n = true)) ∧
+    (c ≤ 2 ↔ (p1 n = true ∨ p2 n = true ∨ p3 n = true)) ∧
+    (c ≤ 5 ↔ (p1 n = true ∨ p2 n = true ∨ p3 n = true ∨ p4 n = true ∨ p5 n = true ∨ p6 n = true)) ∧
+    (c < 8 ↔ (p1 n = true ∨ p2 n = true ∨ p3 n = true ∨ p4 n = true ∨ p5 n = true ∨ p6 n = true ∨ p7 n = true ∨
+      p8 n = true)) ∧
+    (c = 3 → p4 n = true) ∧ (c = 4 → (p5 n = true ∧ p4 n = false)) ∧ (c = 5 → (p6 n = true ∧ p5 n = false)) := by
+  simp only [classIdx8]
+  cases p1 n <;> cases p2 n <;> cases p3 n <;> cases p4 n <;> cases p5 n <;> cases p6 n <;> cases p7 n <;>
+    cases p8 n <;> decide
+
+private theorem mem_localNodes_iff (cl : Cluster) (cfg : Config) (rq : Request) (n : Node) :
+    n ∈ localNodes cl (preference cfg rq) ↔
+      (n ∈ allNodes cl ∧ ((preference cfg rq).datacenter = none ∨ n.dc = (preference cfg rq).datacenter)) := by
+  unfold localNodes
+  cases hd : (preference cfg rq).datacenter with
+  | none => simp
+  | some d =>
+    simp only [reduceCtorEq, false_or]
+    exact ⟨fun h => ⟨(mem_dcNodes_dc h).2, (mem_dcNodes_dc h).1⟩, fun h => mem_dcNodes_of h.1 h.2⟩
+
+private theorem failoverPossible_iff (cfg : Config) (rq : Request) :
+    failoverPossible cfg rq = true ↔ ((preference cfg rq).datacenter ≠ none ∧ cfg.failover = true) := by
+  unfold failoverPossible
+  cases (preference cfg rq).datacenter <;> simp
+
+private theorem any_datacenter : Pref.any.datacenter = none := rfl
+private theorem dc_datacenter (d : Nat) : (Pref.dc d).datacenter = some d := rfl
+private theorem dcRack_datacenter (d r : Nat) : (Pref.dcRack d r).datacenter = some d := rfl
+
+/-- The three replica predicates of `groupPreds`, in model-independent terms. -/
+private theorem replica_preds {cl : Cluster} (hwf : WF cl) (cfg : Config) (rq : Request) (n : Node) :
+    ((match tokenWithStrategy cl cfg rq, preference cfg rq with
+        | some ts, .dcRack d r => decide (n ∈ filteredReplicas cl ts (.dcRack d r) rq.routeAsLwt)
+        | _, _ => false) = true ↔ (LiveReplica cl cfg rq n ∧ LocalRack cfg rq n)) ∧
+    ((match tokenWithStrategy cl cfg rq, (preference cfg rq).datacenter with
+        | some ts, some d => decide (n ∈ filteredReplicas cl ts (.dc d) rq.routeAsLwt)
+        | _, _ => false) = true ↔ (LiveReplica cl cfg rq n ∧ LocalDc cfg rq n)) ∧
+    ((match tokenWithStrategy cl cfg rq with
+        | some ts => ((preference cfg rq).datacenter.isNone || failoverPossible cfg rq) &&
+            decide (n ∈ filteredReplicas cl ts .any rq.routeAsLwt)
+        | none => false) = true ↔
+      (LiveReplica cl cfg rq n ∧ ((preference cfg rq).datacenter = none ∨ failoverPossible cfg rq = true))) := by
+  cases hts : tokenWithStrategy cl cfg rq with
+  | none =>
+    have hno : ¬ LiveReplica cl cfg rq n := by rintro ⟨ts, h, _⟩; rw [hts] at h; cases h
+    refine ⟨?_, ?_, ?_⟩ <;> simp [hno]
+  | some ts =>
+    have hlive : LiveReplica cl cfg rq n ↔ (cl.alive n = true ∧ n ∈ specReplicas cl.loc.ring ts.1 ts.2) := by
+      constructor
+      · rintro ⟨ts', h, h1, h2⟩
+        rw [hts] at h; cases h; exact ⟨h1, h2⟩
+      · rintro ⟨h1, h2⟩; exact ⟨ts, hts, h1, h2⟩
+    refine ⟨?_, ?_, ?_⟩
+    · cases hp : preference cfg rq with
+      | any => simp [LocalRack, hp]
+      | dc d => simp [LocalRack, hp]
+      | dcRack d r =>
+        simp only [decide_eq_true_eq, mem_filteredReplicas_iff hwf hts, hlive, LocalRack, hp, dcRack_datacenter,
+          Option.some.injEq, rackOk, beq_iff_eq, Pref.dcRack.injEq]
+        constructor
+        · rintro ⟨h1, h2, h3, h4⟩; exact ⟨⟨h3, h1⟩, d, r, ⟨rfl, rfl⟩, h2 d rfl, h4⟩
+        · rintro ⟨⟨h3, h1⟩, d', r', ⟨rfl, rfl⟩, h2, h4⟩; exact ⟨h1, fun _ h => h ▸ h2, h3, h4⟩
+    · cases hd : (preference cfg rq).datacenter with
+      | none => simp [LocalDc, hd]
+      | some d =>
+        simp only [decide_eq_true_eq, mem_filteredReplicas_iff hwf hts, hlive, LocalDc, hd, dc_datacenter,
+          Option.some.injEq, rackOk]
+        constructor
+        · rintro ⟨h1, h2, h3, _⟩; exact ⟨⟨h3, h1⟩, d, rfl, h2 d rfl⟩
+        · rintro ⟨⟨h3, h1⟩, d', rfl, h2⟩; exact ⟨h1, fun _ h => h ▸ h2, h3, trivial⟩
+    · simp only [Bool.and_eq_true, Bool.or_eq_true, Option.isNone_iff_eq_none, decide_eq_true_eq,
+        mem_filteredReplicas_iff hwf hts, hlive, any_datacenter, rackOk]
+      constructor
+      · rintro ⟨h0, h1, _, h3, _⟩; exact ⟨⟨h3, h1⟩, h0⟩
+      · rintro ⟨⟨h3, h1⟩, h0⟩; exact ⟨h0, h1, (fun d h => by cases h), h3, trivial⟩
+
+/-- **Classes 0-2 are exactly the live replicas of the token that the datacenter rule permits** - replicas by the
+placement rule of C04, not by the model's own lookup. -/
+theorem class_le2_iff {cl : Cluster} (hwf : WF cl) (cfg : Config) (rq : Request) (n : Node) :
+    classOf cl cfg rq n ≤ 2 ↔ (LiveReplica cl cfg rq n ∧ Permitted cfg rq n) := by
+  obtain ⟨h1, h2, h3⟩ := replica_preds hwf cfg rq n
+  unfold classOf groupPreds
+  rw [(classIdx8_facts _ _ _ _ _ _ _ _ _ _ _ _ _ _ _ _ n).2.2.1, h1, h2, h3, failoverPossible_iff]
+  unfold Permitted LocalRack LocalDc
+  constructor
+  · rintro (⟨hl, d, r, hp, hd, _⟩ | ⟨hl, d, hp, hd⟩ | ⟨hl, h | h⟩)
+    · exact ⟨hl, Or.inr (Or.inr (by rw [hp, hd]; rfl))⟩
+    · exact ⟨hl, Or.inr (Or.inr (by rw [hp, hd]))⟩
+    · exact ⟨hl, Or.inl h⟩
+    · exact ⟨hl, Or.inr (Or.inl h.2)⟩
+  · rintro ⟨hl, h | h | h⟩
+    · exact Or.inr (Or.inr ⟨hl, Or.inl h⟩)
+    · cases hd : (preference cfg rq).datacenter with
+      | none => exact Or.inr (Or.inr ⟨hl, Or.inl rfl⟩)
+      | some d => exact Or.inr (Or.inr ⟨hl, Or.inr ⟨by simp, h⟩⟩)
+    · cases hd : (preference cfg rq).datacenter with
+      | none => exact Or.inr (Or.inr ⟨hl, Or.inl rfl⟩)
+      | some d => exact Or.inr (Or.inl ⟨hl, d, rfl, by rw [h, hd]⟩)
+
+/-- **Class 0 = live replica in the preferred rack of the preferred datacenter.** -/
+theorem class_eq0_iff {cl : Cluster} (hwf : WF cl) (cfg : Config) (rq : Request) (n : Node) :
+    classOf cl cfg rq n = 0 ↔ (LiveReplica cl cfg rq n ∧ LocalRack cfg rq n) := by
+  unfold classOf groupPreds
+  rw [(classIdx8_facts _ _ _ _ _ _ _ _ _ _ _ _ _ _ _ _ n).1, (replica_preds hwf cfg rq n).1]
+
+/-- **Classes 0-1 = live replica in the preferred datacenter.** -/
+theorem class_le1_iff {cl : Cluster} (hwf : WF cl) (cfg : Config) (rq : Request) (n : Node) :
+    classOf cl cfg rq n ≤ 1 ↔ (LiveReplica cl cfg rq n ∧ LocalDc cfg rq n) := by
+  obtain ⟨h1, h2, _⟩ := replica_preds hwf cfg rq n
+  unfold classOf groupPreds
+  rw [(classIdx8_facts _ _ _ _ _ _ _ _ _ _ _ _ _ _ _ _ n).2.1, h1, h2]
+  constructor
+  · rintro (⟨hl, d, r, hp, hd, _⟩ | h)
+    · exact ⟨hl, d, by rw [hp]; rfl, hd⟩
+    · exact h
+  · exact fun h => Or.inr h
+
+/-- **Classes 0-5 = live token-owning nodes the datacenter rule permits.** -/
+theorem class_le5_iff {cl : Cluster} (hwf : WF cl) (cfg : Config) (rq : Request) (n : Node) :
+    classOf cl cfg rq n ≤ 5 ↔ (cl.alive n = true ∧ n ∈ allNodes cl ∧ Permitted cfg rq n) := by
+  constructor
+  · intro h
+    by_cases h2 : classOf cl cfg rq n ≤ 2
+    · obtain ⟨⟨ts, hts, ha, hspec⟩, hperm⟩ := (class_le2_iff hwf cfg rq n).mp h2
+      have : n ∈ (replicaSet cl ts .any).ordered cl.loc :=
+        (views hwf hts .any).2.2.1.mem_iff.mpr ((replicas_eq_spec hwf hts n).mpr hspec)
+      exact ⟨ha, (views hwf hts .any).2.2.2.1 n this, hperm⟩
+    · have hf := classIdx8_facts true true true false false false false false
+      unfold classOf groupPreds at h h2
+      rw [(hf _ _ _ _ _ _ _ _ n).2.2.2.1] at h
+      rw [(hf _ _ _ _ _ _ _ _ n).2.2.1] at h2
+      unfold Permitted
+      rcases h with h | h | h | h | h | h
+      · exact absurd (Or.inl h) h2
+      · exact absurd (Or.inr (Or.inl h)) h2
+      · exact absurd (Or.inr (Or.inr h)) h2
+      · split at h
+        · simp only [Bool.and_eq_true, decide_eq_true_eq, mem_localNodes_iff] at h
+          exact ⟨h.2.1, h.1.1, h.1.2.elim Or.inl (fun x => Or.inr (Or.inr x))⟩
+        · cases h
+      · simp only [Bool.and_eq_true, decide_eq_true_eq, mem_localNodes_iff] at h
+        exact ⟨h.2, h.1.1, h.1.2.elim Or.inl (fun x => Or.inr (Or.inr x))⟩
+      · simp only [Bool.and_eq_true, decide_eq_true_eq, failoverPossible_iff] at h
+        exact ⟨h.2.2, h.2.1, Or.inr (Or.inl h.1.2)⟩
+  · rintro ⟨ha, hn, hperm⟩
+    have hf := classIdx8_facts true true true false false false false false
+    unfold classOf groupPreds
+    rw [(hf _ _ _ _ _ _ _ _ n).2.2.2.1]
+    by_cases hl : (preference cfg rq).datacenter = none ∨ n.dc = (preference cfg rq).datacenter
+    · refine Or.inr (Or.inr (Or.inr (Or.inr (Or.inl ?_))))
+      simp only [Bool.and_eq_true, decide_eq_true_eq, mem_localNodes_iff]
+      exact ⟨⟨hn, hl⟩, ha⟩
+    · refine Or.inr (Or.inr (Or.inr (Or.inr (Or.inr ?_))))
+      simp only [Bool.and_eq_true, decide_eq_true_eq, failoverPossible_iff]
+      rcases hperm with h | h | h
+      · exact absurd (Or.inl h) hl
+      · exact ⟨⟨fun hc => hl (Or.inl hc), h⟩, hn, ha⟩
+      · exact absurd (Or.inr h) hl
+
+/-- **Classes 0-7 = enabled token-owning nodes the datacenter rule permits** (what a plan consists of). -/
+theorem class_lt8_iff {cl : Cluster} (hwf : WF cl) (cfg : Config) (rq : Request) (n : Node) :
+    classOf cl cfg rq n < 8 ↔ (cl.enabled n = true ∧ n ∈ allNodes cl ∧ Permitted cfg rq n) := by
+  constructor
+  · intro h
+    by_cases h5 : classOf cl cfg rq n ≤ 5
+    · obtain ⟨ha, hn, hp⟩ := (class_le5_iff hwf cfg rq n).mp h5
+      exact ⟨alive_enabled ha, hn, hp⟩
+    · have hf := classIdx8_facts true true true false false false false false
+      unfold classOf groupPreds at h h5
+      rw [(hf _ _ _ _ _ _ _ _ n).2.2.2.2.1] at h
+      rw [(hf _ _ _ _ _ _ _ _ n).2.2.2.1] at h5
+      unfold Permitted
+      rcases h with h | h | h | h | h | h | h | h
+      · exact absurd (Or.inl h) h5
+      · exact absurd (Or.inr (Or.inl h)) h5
+      · exact absurd (Or.inr (Or.inr (Or.inl h))) h5
+      · exact absurd (Or.inr (Or.inr (Or.inr (Or.inl h)))) h5
+      · exact absurd (Or.inr (Or.inr (Or.inr (Or.inr (Or.inl h))))) h5
+      · exact absurd (Or.inr (Or.inr (Or.inr (Or.inr (Or.inr h))))) h5
+      · simp only [Bool.and_eq_true, decide_eq_true_eq, mem_localNodes_iff] at h
+        exact ⟨h.2, h.1.1, h.1.2.elim Or.inl (fun x => Or.inr (Or.inr x))⟩
+      · simp only [Bool.and_eq_true, decide_eq_true_eq, failoverPossible_iff] at h
+        exact ⟨h.2.2, h.2.1, Or.inr (Or.inl h.1.2)⟩
+  · rintro ⟨he, hn, hperm⟩
+    have hf := classIdx8_facts true true true false false false false false
+    unfold classOf groupPreds
+    rw [(hf _ _ _ _ _ _ _ _ n).2.2.2.2.1]
+    by_cases hl : (preference cfg rq).datacenter = none ∨ n.dc = (preference cfg rq).datacenter
+    · refine Or.inr (Or.inr (Or.inr (Or.inr (Or.inr (Or.inr (Or.inl ?_))))))
+      simp only [Bool.and_eq_true, decide_eq_true_eq, mem_localNodes_iff]
+      exact ⟨⟨hn, hl⟩, he⟩
+    · refine Or.inr (Or.inr (Or.inr (Or.inr (Or.inr (Or.inr (Or.inr ?_))))))
+      simp only [Bool.and_eq_true, decide_eq_true_eq, failoverPossible_iff]
+      rcases hperm with h | h | h
+      · exact absurd (Or.inl h) hl
+      · exact ⟨⟨fun hc => hl (Or.inl hc), h⟩, hn, he⟩
+      · exact absurd (Or.inr h) hl
+
+/-- **Classes 6-7 = enabled nodes believed down.** -/
+theorem class_6_7 {cl : Cluster} (hwf : WF cl) (cfg : Config) (rq : Request) (n : Node)
+    (h : 6 ≤ classOf cl cfg rq n ∧ classOf cl cfg rq n ≤ 7) : cl.enabled n = true ∧ cl.alive n = false := by
+  obtain ⟨he, hn, hp⟩ := (class_lt8_iff hwf cfg rq n).mp (by omega)
+  refine ⟨he, ?_⟩
+  cases ha : cl.alive n with
+  | false => rfl
+  | true => have := (class_le5_iff hwf cfg rq n).mpr ⟨ha, hn, hp⟩; omega
+
+/-- **Classes 3-5 = live nodes that are not (permitted) replicas, local rack / local datacenter / remote in the order
+the code tries them.** -/
+theorem class_3_4_5 {cl : Cluster} (hwf : WF cl) (cfg : Config) (rq : Request) (n : Node) :
+    (classOf cl cfg rq n = 3 → (cl.alive n = true ∧ ¬ LiveReplica cl cfg rq n ∧ LocalRack cfg rq n)) ∧
+    (classOf cl cfg rq n = 4 → (cl.alive n = true ∧ ¬ LiveReplica cl cfg rq n ∧
+        ((preference cfg rq).datacenter = none ∨ n.dc = (preference cfg rq).datacenter))) ∧
+    (classOf cl cfg rq n = 5 → (cl.alive n = true ∧ ¬ LiveReplica cl cfg rq n ∧ cfg.failover = true ∧
+        (preference cfg rq).datacenter ≠ none ∧ n.dc ≠ (preference cfg rq).datacenter)) := by
+  have hnot : 3 ≤ classOf cl cfg rq n → classOf cl cfg rq n ≤ 5 → Permitted cfg rq n ∧ ¬ LiveReplica cl cfg rq n := by
+    intro h3 h5
+    have hp := ((class_le5_iff hwf cfg rq n).mp h5).2.2
+    exact ⟨hp, fun hl => by have := (class_le2_iff hwf cfg rq n).mpr ⟨hl, hp⟩; omega⟩
+  have hf := classIdx8_facts true true true false false false false false
+  refine ⟨?_, ?_, ?_⟩
+  · intro h
+    have ha := ((class_le5_iff hwf cfg rq n).mp (by omega)).1
+    refine ⟨ha, (hnot (by omega) (by omega)).2, ?_⟩
+    unfold classOf groupPreds at h
+    have h4 := (hf _ _ _ _ _ _ _ _ n).2.2.2.2.2.1 h
+    split at h4
+    · rename_i d r hp
+      simp only [Bool.and_eq_true, decide_eq_true_eq, mem_localNodes_iff, beq_iff_eq] at h4
+      refine ⟨d, r, hp, ?_, h4.2.2⟩
+      rcases h4.1.2 with hd | hd
+      · rw [hp] at hd; cases hd
+      · rw [hd, hp]; rfl
+    · cases h4
+  · intro h
+    have ha := ((class_le5_iff hwf cfg rq n).mp (by omega)).1
+    refine ⟨ha, (hnot (by omega) (by omega)).2, ?_⟩
+    unfold classOf groupPreds at h
+    have h5 := ((hf _ _ _ _ _ _ _ _ n).2.2.2.2.2.2.1 h).1
+    simp only [Bool.and_eq_true, decide_eq_true_eq, mem_localNodes_iff] at h5
+    exact h5.1.2
+  · intro h
+    obtain ⟨ha, hn, _⟩ := (class_le5_iff hwf cfg rq n).mp (by omega)
+    refine ⟨ha, (hnot (by omega) (by omega)).2, ?_⟩
+    unfold classOf groupPreds at h
+    obtain ⟨h6, h5⟩ := (hf _ _ _ _ _ _ _ _ n).2.2.2.2.2.2.2 h
+    simp only [Bool.and_eq_true, decide_eq_true_eq, failoverPossible_iff] at h6
+    refine ⟨h6.1.2, h6.1.1, ?_⟩
+    intro hd
+    have : (decide (n ∈ localNodes cl (preference cfg rq)) && cl.alive n) = true := by
+      simp only [Bool.and_eq_true, decide_eq_true_eq, mem_localNodes_iff]
+      exact ⟨⟨hn, Or.inr hd⟩, ha⟩
+    rw [this] at h5; cases h5
+
+/-! ### the ordering clauses of the property, positionally on the plan -/
+
+private theorem plan_pairwise_of_class {cl : Cluster} (hwf : WF cl) (cfg : Config) (rq : Request) (ρp : RhoPick) (ρf : RhoFb)
+    (R : Node → Node → Prop)
+    (h : ∀ a b, classOf cl cfg rq a ≤ classOf cl cfg rq b → classOf cl cfg rq b < 8 → R a b) :
+    (plan cl cfg rq ρp ρf).Pairwise (fun a b => R a.1 b.1) :=
+  List.Pairwise.imp_of_mem (fun {a b} _ hb hab => h a.1 b.1 hab (plan_members_classified hwf cfg rq ρp ρf b hb))
+    (plan_order hwf cfg rq ρp ρf)
+
+/-- **Every live replica of the token precedes every other node**: whenever `b` comes after `a` in a plan and `b` is a
+live replica (by the placement rule), so is `a`. -/
+theorem plan_replicas_first {cl : Cluster} (hwf : WF cl) (cfg : Config) (rq : Request) (ρp : RhoPick) (ρf : RhoFb) :
+    (plan cl cfg rq ρp ρf).Pairwise (fun a b => LiveReplica cl cfg rq b.1 → LiveReplica cl cfg rq a.1) := by
+  apply plan_pairwise_of_class hwf cfg rq ρp ρf (fun a b => LiveReplica cl cfg rq b → LiveReplica cl cfg rq a)
+  intro a b hab hb hl
+  have hpb := ((class_lt8_iff hwf cfg rq b).mp hb).2.2
+  have := (class_le2_iff hwf cfg rq b).mpr ⟨hl, hpb⟩
+  exact ((class_le2_iff hwf cfg rq a).mp (by omega)).1
+
+/-- **Local-rack replicas precede all other nodes** (in particular the other replicas). -/
+theorem plan_rack_replicas_first {cl : Cluster} (hwf : WF cl) (cfg : Config) (rq : Request) (ρp : RhoPick) (ρf : RhoFb) :
+    (plan cl cfg rq ρp ρf).Pairwise (fun a b => (LiveReplica cl cfg rq b.1 ∧ LocalRack cfg rq b.1) →
+      (LiveReplica cl cfg rq a.1 ∧ LocalRack cfg rq a.1)) := by
+  apply plan_pairwise_of_class hwf cfg rq ρp ρf
+    (fun a b => (LiveReplica cl cfg rq b ∧ LocalRack cfg rq b) → (LiveReplica cl cfg rq a ∧ LocalRack cfg rq a))
+  intro a b hab _ hl
+  have := (class_eq0_iff hwf cfg rq b).mpr hl
+  exact (class_eq0_iff hwf cfg rq a).mp (by omega)
+
+/-- **Replicas of the preferred datacenter precede all remaining nodes** (in particular the remote replicas). -/
+theorem plan_dc_replicas_first {cl : Cluster} (hwf : WF cl) (cfg : Config) (rq : Request) (ρp : RhoPick) (ρf : RhoFb) :
+    (plan cl cfg rq ρp ρf).Pairwise (fun a b => (LiveReplica cl cfg rq b.1 ∧ LocalDc cfg rq b.1) →
+      (LiveReplica cl cfg rq a.1 ∧ LocalDc cfg rq a.1)) := by
+  apply plan_pairwise_of_class hwf cfg rq ρp ρf
+    (fun a b => (LiveReplica cl cfg rq b ∧ LocalDc cfg rq b) → (LiveReplica cl cfg rq a ∧ LocalDc cfg rq a))
+  intro a b hab _ hl
+  have := (class_le1_iff hwf cfg rq b).mpr hl
+  exact (class_le1_iff hwf cfg rq a).mp (by omega)
+
+/-- **Every live node precedes every node believed down.** -/
+theorem plan_live_before_down {cl : Cluster} (hwf : WF cl) (cfg : Config) (rq : Request) (ρp : RhoPick) (ρf : RhoFb) :
+    (plan cl cfg rq ρp ρf).Pairwise (fun a b => cl.alive b.1 = true → cl.alive a.1 = true) := by
+  apply plan_pairwise_of_class hwf cfg rq ρp ρf (fun a b => cl.alive b = true → cl.alive a = true)
+  intro a b hab hb hl
+  obtain ⟨_, hn, hp⟩ := (class_lt8_iff hwf cfg rq b).mp hb
+  have := (class_le5_iff hwf cfg rq b).mpr ⟨hl, hn, hp⟩
+  exact ((class_le5_iff hwf cfg rq a).mp (by omega)).1
+
 /-! ### non-vacuity: the suite's 7-node, 2-datacenter ring with vnodes; node 2 down, node 7 disabled -/
 
 /-- Nodes 1,2,3,7 in datacenter 0 (racks 1,1,3,2), nodes 4,5,6 in datacenter 1 (no rack, racks 1,2). -/
